@@ -150,6 +150,18 @@ func baseMutate(ctx context.Context, table, key []byte, values map[string]map[st
 		values:    values,
 		timestamp: MaxTimestamp,
 	}
+	// A cell stores the length of its row in two bytes and the length of
+	// its family in one. A longer row or family cannot be encoded: with the
+	// length cut to that width the bytes sent would describe a different,
+	// valid cell.
+	if len(key) > math.MaxUint16 {
+		return nil, errors.New("row key is longer than 65535 bytes")
+	}
+	for family := range values {
+		if len(family) > math.MaxUint8 {
+			return nil, errors.New("column family name is longer than 255 bytes")
+		}
+	}
 	err := applyOptions(m, options...)
 	if err != nil {
 		return nil, err
